@@ -141,6 +141,10 @@ def fam_relay(w: World) -> None:
             w.violate('C18.relay', f'{name}: the dispatcher was called {len(res.dispatched)} times for one POST', **ctx)
             continue
         text, verdict = res.dispatched[0]
+        want_endpoint = 'sub' if (use_sub and name != 'werkzeug') else 'main'
+        if res.endpoints[:1] != [want_endpoint]:
+            w.violate('C18.endpoint', f'{name}: the POST to {url!r} was served by the dispatcher of endpoint '
+                      f'{res.endpoints[:1]} instead of {want_endpoint!r}', **ctx)
         if text != body.decode('utf-8'):
             w.violate('C18.relay', f'{name}: the dispatcher received {text[:80]!r}, the body was {body[:80]!r}', **ctx)
         if verdict is None:
